@@ -10,8 +10,8 @@ FAMILIES = {
    why_open="pinned by tests/codec/ber/test_encoder.py ExpTaggedSequenceComponentEncoderTestCase.testIndefMode, which asserts the malformed octets",
    zone=['emu:stray-eoo']),
  'emptyable-optional': dict(
-   what="OPTIONAL components of constructed type: BER writes an absent OPTIONAL SEQUENCE/SET that has fields but no mandatory one as present-and-empty (the encoder's own read materialises it); CER/DER drop every OPTIONAL component whose constructed encoding has no contents, and that test leaks into SEQUENCE OF/SET OF elements and CHOICE alternatives below an OPTIONAL component",
-   why_open="data-model limitation (such a SEQUENCE/SET is a value from the start, read accessors instantiate) plus the omitEmptyOptionals behaviour asserted by tests/codec/cer/test_encoder.py (NestedOptional*/OptionalSequenceOf* cases); no small repair",
+   what="OPTIONAL components of constructed type: CER/DER drop every OPTIONAL component whose constructed encoding has no contents (a present and empty SEQUENCE / SET / SEQUENCE OF / SET OF), and that test leaks into SEQUENCE OF/SET OF elements and CHOICE alternatives below an OPTIONAL component",
+   why_open="the omitEmptyOptionals behaviour is asserted by tests/codec/cer/test_encoder.py (NestedOptional*/OptionalSequenceOf* cases); no small repair (the BER half - absent components materialised by the encoder's own read - was repaired by 332d613)",
    zone=['emu:emptyable-optional']),
  'real-nr3-nodot': dict(
    what="base-10 REAL is written as NR3 without the decimal mark (123E11); X.690 11.3.2 requires 123.E11 in DER/CER",
@@ -40,12 +40,10 @@ WILD_ENC = ["*:encode-raised:*", "*:in-zone-output-differs-from-emulation"]
 ENTRIES = [
  # (property, family, symptoms, witness)
  ('C01', 'stray-eoo', ['ber:stray-eoo'], "('c01', ('tag', 'E', 'A', 9, ('bool',)), False, False, 0)"),
- ('C01', 'emptyable-optional', ['ber:emptyable-optional'],
-  "('c01', ('seq', (('f0', ('seq', (('g', ('int',), 'opt', None),)), 'opt', None),)), {}, True, 0)"),
  ('C01', 'real-default-float', ['ber:real-default-float'],
   "('c01', ('seq', (('f0', ('real',), 'def', ('r', 123, 2, 32768)),)), {'f0': ('r', 123, 2, 32768)}, True, 0)"),
  ('C01', 'default-constructed', WILD_ENC + ['ber:value-differs:*', 'ber:decode-raised:*'],
-  "('c01', ('seq', (('f1', ('seq', ()), 'def', {}),)), {'f1': {}}, True, 0)"),
+  "('c01', ('seq', (('f1', ('seq', (('g', ('int',), 'opt', None), ('h', ('int',), 'req', None))), 'def', {'h': 1}),)), {'f1': {'g': 5, 'h': 1}}, True, 0)"),
  ('C01', 'default-choice', WILD_ENC + ['ber:value-differs:*', 'ber:decode-raised:*'],
   "('c01', ('set', (('f0', ('choice', (('a0', ('bits',)),)), 'def', ('a0', (18, 237397))), ('f1', ('octs',), 'opt', None))), {'f0': ('a0', (18, 237397))}, True, 0)"),
 
@@ -57,12 +55,12 @@ ENTRIES = [
  ('C02', 'real-default-float', ['cer:real-default-float', 'der:real-default-float'],
   "('c02', ('seq', (('f0', ('real',), 'def', ('r', 123, 2, 32768)),)), {'f0': ('r', 123, 2, 32768)}, 'DER')"),
  ('C02', 'default-constructed', WILD_ENC + ['*->*:value-differs:*', '*->*:decode-raised:*'],
-  "('c02', ('seq', (('f1', ('seq', ()), 'def', {}),)), {'f1': {}}, 'DER')"),
+  "('c02', ('seq', (('f1', ('seq', (('g', ('int',), 'opt', None), ('h', ('int',), 'req', None))), 'def', {'h': 1}),)), {'f1': {'g': 5, 'h': 1}}, 'DER')"),
  ('C02', 'default-choice', WILD_ENC + ['*->*:value-differs:*', '*->*:decode-raised:*'],
   "('c02', ('set', (('f0', ('choice', (('a0', ('bits',)),)), 'def', ('a0', (18, 237397))), ('f1', ('octs',), 'opt', None))), {'f0': ('a0', (18, 237397))}, 'DER')"),
 
  ('C03', 'stray-eoo', ['ber:stray-eoo', 'cer:stray-eoo'], "('c03', ('tag', 'E', 'C', 11, ('null',)), None, 'CER', (False, 0))"),
- ('C03', 'emptyable-optional', ['ber:emptyable-optional', 'cer:emptyable-optional', 'der:emptyable-optional'],
+ ('C03', 'emptyable-optional', ['cer:emptyable-optional', 'der:emptyable-optional'],
   "('c03', ('tag', 'E', 'C', 5, ('tag', 'I', 'C', 2, ('set', (('f0', ('set', ()), 'opt', None),)))), {'f0': {}}, 'DER', (True, 2))"),
  ('C03', 'real-nr3-nodot', ['der:real-nr3-nodot'], "('c03', ('real',), ('r', -1, 10, 33), 'DER', (False, 1))"),
  ('C03', 'time-fraction-zeros', ['der:time-fraction-zeros', 'cer:time-fraction-zeros'],
@@ -70,7 +68,7 @@ ENTRIES = [
  ('C03', 'real-default-float', ['ber:real-default-float', 'cer:real-default-float', 'der:real-default-float'],
   "('c03', ('seq', (('f3', ('real',), 'def', ('r', 3935, 10, 127)),)), {'f3': ('r', -123, 2, 1023)}, 'DER', (True, 3))"),
  ('C03', 'default-constructed', WILD_ENC + ['*:reference-reads-different-value:*', 'der-bytes-differ:*'],
-  "('c03', ('seq', (('f1', ('seq', ()), 'def', {}),)), {'f1': {}}, 'DER', (True, 0))"),
+  "('c03', ('seq', (('f1', ('seq', (('g', ('int',), 'opt', None), ('h', ('int',), 'req', None))), 'def', {'h': 1}),)), {'f1': {'g': 5, 'h': 1}}, 'DER', (True, 0))"),
  ('C03', 'default-choice', WILD_ENC + ['*:reference-reads-different-value:*', 'der-bytes-differ:*'],
   "('c03', ('set', (('f0', ('choice', (('a0', ('bits',)),)), 'def', ('a0', (18, 237397))), ('f1', ('octs',), 'opt', None))), {'f0': ('a0', (18, 237397))}, 'DER', (True, 0))"),
 ]
@@ -87,13 +85,14 @@ ENC_WITNESS = {
  'emptyable-optional': "('enc', ('seq', (('f0', ('seq', (('g', ('int',), 'opt', None),)), 'opt', None),)), {%s}, '%s', True, 0)",
  'time-fraction-zeros': "('enc', ('useful', 'GeneralizedTime'), '19701027114001.05Z', '%s', True, 0)",
  'real-default-float': "('enc', ('seq', (('f0', ('real',), 'def', ('r', 123, 2, 32768)),)), {'f0': ('r', 123, 2, 32768)}, '%s', True, 0)",
- 'default-constructed': "('enc', ('seq', (('f1', ('seq', ()), 'def', {}),)), {'f1': {}}, '%s', True, 0)",
+ 'default-constructed': "('enc', ('seq', (('f1', ('seq', (('g', ('int',), 'opt', None), ('h', ('int',), 'req', None))), 'def', {'h': 1}),)), {'f1': {'g': 5, 'h': 1}}, '%s', True, 0)",
  'default-choice': "('enc', ('set', (('f0', ('choice', (('a0', ('bits',)),)), 'def', ('a0', (18, 237397))), ('f1', ('octs',), 'opt', None))), {'f0': ('a0', (18, 237397))}, '%s', True, 0)",
 }
 for _prop, _codecs in sorted(ENC_PROPS.items()):
     for _fam in ('stray-eoo', 'emptyable-optional', 'time-fraction-zeros', 'real-default-float',
                  'default-constructed', 'default-choice'):
-        _c = [c for c in _codecs if not (_fam == 'stray-eoo' and c == 'DER') and not (_fam == 'time-fraction-zeros' and c == 'BER')]
+        _c = [c for c in _codecs if not (_fam == 'stray-eoo' and c == 'DER') and not (_fam == 'time-fraction-zeros' and c == 'BER')
+              and not (_fam == 'emptyable-optional' and c == 'BER')]     # BER half repaired by 332d613
         if not _c:
             continue
         _w = ENC_WITNESS[_fam]
@@ -147,25 +146,6 @@ EXTRA = [
   'what': _WRAP_WHAT + ' -- tell() jumps backwards without any octet having been moved, which no seekable stream does',
   'why_open': _WRAP_WHY,
   'witness': "('c11-wrapper', 40970, 1, 60)"},
- {'id': 'KF-C12-default-constructed-history', 'status': 'open', 'property': 'C12',
-  'symptom': ['outcome-differs-from-isolated-call:*', 'value-changed-by:*', 'schema-changed-by:*', 'threaded-call-differs:*'], 'zone': ['default-constructed'],
-  'what': FAMILIES['default-constructed']['what'] + ' -- seen here as: whether encoding a value with a constructed DEFAULT component succeeds depends on which read accessors ran before (they leave schema placeholders in the value or in the shared DEFAULT object, on which == then raises)',
-  'why_open': FAMILIES['default-constructed']['why_open'],
-  'witness': "('c12-history', ('set', (('f0', ('seq', (('f0', ('bits',), 'req', None), ('f1', ('tag', 'E', 'P', 3, ('seq', (('f0', ('real',), 'req', None),))), 'opt', None))), 'def', {'f0': (2042, 0)}),)), {'f0': {'f0': (2042, 0)}}, 0, ())"},
- {'id': 'KF-C12-default-choice-history', 'status': 'open', 'property': 'C12',
-  'symptom': ['outcome-differs-from-isolated-call:*', 'value-changed-by:*', 'schema-changed-by:*', 'threaded-call-differs:*'], 'zone': ['default-choice'],
-  'what': FAMILIES['default-choice']['what'], 'why_open': FAMILIES['default-choice']['why_open'],
-  'witness': "('c12-history', ('set', (('f0', ('choice', (('a0', ('bits',)),)), 'def', ('a0', (18, 237397))), ('f1', ('octs',), 'opt', None))), {'f0': ('a0', (18, 237397))}, 0, ())"},
- {'id': 'KF-C12-emptyable-optional-materialised', 'status': 'open', 'property': 'C12',
-  'symptom': ['value-changed-by:*', 'outcome-differs-from-isolated-call:*'], 'zone': ['absent-optional-emptyable-record'],
-  'what': FAMILIES['emptyable-optional']['what'] + ' -- seen here as: encoding (BER, native) a value whose OPTIONAL SEQUENCE/SET component without mandatory members is absent changes the value object itself (the component becomes present-and-empty), so later calls on the same object differ from the same calls on a fresh one',
-  'why_open': FAMILIES['emptyable-optional']['why_open'],
-  'witness': "('c12-history', ('seq', (('f0', ('seq', (('g', ('int',), 'opt', None),)), 'opt', None),)), {}, 0, ())"},
- {'id': 'KF-C17-emptyable-optional-object-side', 'status': 'open', 'property': 'C17',
-  'symptom': ['bare:*:bytes-differ', 'native:value-differs:*'], 'zone': ['absent-optional-emptyable-record'],
-  'what': FAMILIES['emptyable-optional']['what'] + ' -- seen here as: the value object gains a present-and-empty component the Python tree (rightly) lacks, so the two encodings differ and the native round trip returns an extra empty member',
-  'why_open': FAMILIES['emptyable-optional']['why_open'],
-  'witness': "('c17', ('seq', (('f0', ('seq', (('g', ('int',), 'opt', None),)), 'opt', None),)), {}, 'BER:derived')"},
  {'id': 'KF-C17-default-constructed-bare', 'status': 'open', 'property': 'C17',
   'symptom': ['bare:*:bytes-differ', 'bare:*:raised:*'], 'zone': ['default-constructed'],
   'what': FAMILIES['default-constructed']['what'] + ' -- for a bare Python mapping/list the comparison with a constructed DEFAULT never holds, so the member is always written',
@@ -179,7 +159,7 @@ EXTRA = [
   'symptom': ['accepted-value-not-encodable:library'], 'zone': ['accepted-noncanonical-time'],
   'what': "the CER and DER decoders do not validate GeneralizedTime/UTCTime contents (no Z, local offsets, wrong length, comma or trailing zeros in the fraction are all accepted), while the CER/DER encoders refuse exactly those strings: a decoder-accepted value that the same codec's encoder rejects",
   'why_open': "the source marks it as a TODO ('prohibit non-canonical encoding'); adding time validation to the CER/DER decoders is new behaviour, not a small repair",
-  'witness': "('c10', ('useful', 'UTCTime'), (), '170b383530363237373039315a', 'DER')"},
+  'witness': "('c10', ('useful', 'GeneralizedTime'), (), '180e3230313730313032303330343035', 'DER')"},
  {'id': 'KF-C06-closed-mid-read', 'status': 'open', 'property': 'C06',
   'symptom': ['closed:keeps-reporting-underrun'], 'zone': ['stream-ended-inside-a-multi-octet-read'],
   'what': "streaming decoder on a stream that was closed inside a multi-octet read (tag+length known, fewer contents octets than announced, or half of an end-of-octets pair): every retry gets the same short read, rewinds and reports underrun again, so EndOfStreamError is never raised; only a cut on a read boundary (the next read returns b'') is recognised as end of stream",
